@@ -48,6 +48,36 @@ var (
 
 func pick(r *vh.Rand, xs []string) string { return xs[r.Intn(len(xs))] }
 
+func mmss(r *vh.Rand) int {
+	if r.Chance(1, 3) {
+		return []int{0, 59, 30}[r.Intn(3)]
+	}
+	return r.Intn(60)
+}
+
+// all military time zone letters of bfe_util.TimeZoneMap (J is not a zone), east and west of UTC
+const zoneLetters = "ABCDEFGHIKLMNOPQRSTUVWXYZ"
+
+func zone(r *vh.Rand) string {
+	z := string(zoneLetters[r.Intn(len(zoneLetters))])
+	if r.Chance(1, 6) {
+		z = strings.ToLower(z)
+	}
+	return z
+}
+
+// tod returns hhmmss biased to both sides of midnight, noon and zone-offset boundaries
+func tod(r *vh.Rand) string {
+	switch r.Intn(6) {
+	case 0:
+		return r.Pick("000000", "000001", "000059", "003000", "005959", "010000")
+	case 1:
+		return r.Pick("235959", "235958", "233000", "230000", "225959", "120000", "115959")
+	default:
+		return fmt.Sprintf("%02d%02d%02d", r.Intn(24), mmss(r), mmss(r))
+	}
+}
+
 func patList(r *vh.Rand, pool []string, want string) string {
 	n := r.Range(1, 5)
 	var ps []string
@@ -297,20 +327,41 @@ func gen(r *vh.Rand) string {
 			a1 = p
 		}
 	}
-	if name == "bfe_time_range" {
-		a0, a1 = pick(r, times), pick(r, times)
-		if r.Chance(1, 2) {
-			a0, a1 = "20190204120000Z", "20190204203000H"
-		}
-	}
-	if name == "bfe_periodic_time_range" {
-		a0, a1 = pick(r, tods), pick(r, tods)
-		if r.Chance(1, 2) {
-			a0, a1 = r.Pick("120000H", "000000H", "203000H"), r.Pick("203000H", "235959H", "203000H")
-		}
-	}
 	if strings.HasPrefix(name, "bfe_") {
-		dt := pick(r, times)
+		// debug time: a date next to a day / month / year boundary, a time of day next to midnight or anywhere,
+		// in any zone: the local date in the primitive's zone is the previous, the same or the next day
+		day := r.Pick("20190204", "20190205", "20190301", "20190228", "20200229", "20191231", "20200101", "19700101")
+		dz := zone(r)
+		dt := day + tod(r) + dz
+		if r.Chance(1, 12) {
+			dt = pick(r, times)
+		}
+		if name == "bfe_time_range" {
+			a0, a1 = pick(r, times), pick(r, times)
+			switch r.Intn(4) {
+			case 0, 1: // a window around / next to the debug time, start and end in (other) random zones
+				z1, z2 := zone(r), zone(r)
+				a0 = r.Pick("20190203", day, "19691231") + tod(r) + z1
+				a1 = r.Pick(day, "20200301", "20190206") + tod(r) + z2
+			case 2: // the debug instant itself as a bound, written in the same zone
+				a0 = dt
+				a1 = r.Pick("20200301", day) + tod(r) + dz
+			}
+		} else {
+			a0, a1 = pick(r, tods), pick(r, tods)
+			if !r.Chance(1, 8) {
+				z := zone(r)
+				s1, s2 := tod(r), tod(r)
+				if s1 > s2 && r.Chance(3, 4) {
+					s1, s2 = s2, s1
+				}
+				z2 := z
+				if r.Chance(1, 10) {
+					z2 = zone(r)
+				}
+				a0, a1 = s1+z, s2+z2
+			}
+		}
 		headers = append(headers, [2]string{"X-Bfe-Debug-Time", dt})
 		tHint(dt)
 		tHint(a0)
